@@ -531,13 +531,18 @@ class C01(Family):
                      "CtrlVerif.Props.C01GenDiv", "CtrlVerif.Props.C01GenFb", "CtrlVerif.Props.C01GenCtor",
                      "CtrlVerif.Props.C01Gen",
                      "CtrlVerif.Props.C01Call"]     # [v01] function-call forms (Model/TFCall.lean)
+    # [py2lean-bdalgfn] Generated/BdalgFn*.lean from the text of the wrappers of control/bdalg.py
+    extra_modules += ["CtrlVerif.Props.C01GenFn", "CtrlVerif.Props.C01GenFnFold", "CtrlVerif.Props.C01GenFnSem"]
 
     def pre_build(self):
         import os
         from core import py2lean_tf, leanproj
         repo = os.environ.get("VERIF_REPO") or "/repo"
         problems, self.gen_info = py2lean_tf.regenerate(repo, leanproj.LEAN)
-        return problems
+        from core import py2lean_bdalgfn       # [py2lean-bdalgfn]
+        problems2, info2 = py2lean_bdalgfn.regenerate(repo, leanproj.LEAN)
+        self.gen_info.update(info2)
+        return problems + problems2
     externals = ["numpy.polymul/polyadd (exact counterparts in the model, validated by the same runs)"]
     assumptions = [
         "binary64 arithmetic of the implementation is exact whenever the model-side audit passes "
